@@ -15,6 +15,14 @@ def run(R, tier, seed, only=None):
     if only in (None, "writer"):
         import fmtwriter
         fmtwriter.run(R, tier, seed, drv)
+    if only in (None, "quote"):
+        import os
+        import sys
+        sys.path.insert(0, os.path.join(core.VERIF, "engines", "mirsym"))
+        import kchecks
+        d = core.Driver(drv)
+        kchecks.check_quote(R, d, tier)
+        d.close()
     R.cov["states"] = max(1, R.cov.get("states", 0))
     R.cov["transitions"] = max(1, R.cov.get("transitions", 0))
     R.cov["traces_validated_against_impl"] = R.cov["queries"].get("sat", 0)
